@@ -371,9 +371,189 @@ func (s *Spec) TSText() string {
 			codes = append(codes, t.Name)
 		}
 	}
-	ep := TSEpilogue + "var verifCodes :number[] = [" + strings.Join(codes, ", ") + "];\n"
+	ep := TSEpilogue + "var verifCodes :number[] = [" + strings.Join(codes, ", ") + "];\n" + s.tsSpecTables() + TSStepEpilogue
 	return s.Render(RenderOpts{TS: true, Prologue: TSPrologue, Epilogue: ep, Union: TSUnion})
 }
+
+// tsSpecTables renders the rule tables of the specification for the TypeScript step harness
+// (rule numbers in file order, symbols in specification numbering: terminals, then nonterminals).
+func (s *Spec) tsSpecTables() string {
+	tagNo := map[string]int{"": 0, "val": 1, "alt": 2}
+	var lhs, k0, tags []string
+	rhs, coef := []string{"[]"}, []string{"[]"}
+	lhs, k0 = append(lhs, "0"), append(k0, "0")
+	for _, r := range s.Rules {
+		lhs = append(lhs, fmt.Sprint(s.SymIndex(r.Lhs)))
+		k := r.K0
+		if s.NTTag[r.Lhs] == "" {
+			k = 0
+		}
+		k0 = append(k0, fmt.Sprint(k))
+		var xs, cs []string
+		for i, x := range r.Rhs {
+			xs = append(xs, fmt.Sprint(s.SymIndex(x)))
+			c := r.Coef[i]
+			if s.NTTag[r.Lhs] == "" {
+				c = 0
+			}
+			cs = append(cs, fmt.Sprint(c))
+		}
+		rhs = append(rhs, "["+strings.Join(xs, ", ")+"]")
+		coef = append(coef, "["+strings.Join(cs, ", ")+"]")
+	}
+	for _, t := range s.Toks {
+		tags = append(tags, fmt.Sprint(tagNo[t.Tag]))
+	}
+	for _, n := range s.NTs {
+		tags = append(tags, fmt.Sprint(tagNo[s.NTTag[n]]))
+	}
+	return "var verifRuleLhs :number[] = [" + strings.Join(lhs, ", ") + "];\n" +
+		"var verifRuleRhs :number[][] = [" + strings.Join(rhs, ", ") + "];\n" +
+		"var verifK0 :number[] = [" + strings.Join(k0, ", ") + "];\n" +
+		"var verifCoef :number[][] = [" + strings.Join(coef, ", ") + "];\n" +
+		"var verifSymTag :number[] = [" + strings.Join(tags, ", ") + "];\n" +
+		fmt.Sprintf("var verifNTerm = %d;\nvar verifStartSym = %d;\n", len(s.Toks), s.SymIndex(s.Start))
+}
+
+// TSStepEpilogue is the step-lemma harness for the TypeScript driver, written in the emitted
+// subset so that tsmini (symbolically) and node (natively, for replays) run the same text.
+// verifStep returns 0 when the driver's macro-step equals the LR machine's, 100 when the
+// configuration handed in is not a path of the automaton, and a failure code otherwise.
+const TSStepEpilogue = `
+function verifAct(q :number, a :number) :number {
+	return new StateSym(q, 0).Action(a)
+}
+function verifField(v :ValType, tag :number) :number {
+	if (tag == 1) { return v.val }
+	if (tag == 2) { return v.alt }
+	return 0
+}
+function verifMkSym(q :number, x :number, v :number, w :number) :StateSym {
+	let s = new StateSym(q, x)
+	s.ValType = new ValType()
+	s.ValType.val = v
+	s.ValType.alt = w
+	return s
+}
+// n entries of the stack (entry 0 is the bottom), the arrays hold all slots (stale ones after n):
+// sq states, sid yaccgo symbol ids, sx specification symbols (-1 for stale slots), sv / sw the two value fields;
+// ids maps specification symbols to yaccgo ids; tok / tv the lookahead code and its value
+function verifStep(n :number, sq :number[], sid :number[], sx :number[], sv :number[], sw :number[], ids :number[], tok :number, tv :number) :number {
+	let a :StateSym[] = []
+	let i = 0
+	while (i < sq.length) {
+		if (i == 0) {
+			a.push(new StateSym(0, 1))
+		} else {
+			a.push(verifMkSym(sq[i], sid[i], sv[i], sw[i]))
+		}
+		i = i + 1
+	}
+	StateSymStack = a
+	StackPointer = n
+	verifTok = [tok, 987654321]
+	verifVal = [tv, 0]
+	verifLog = []
+	verifRequests = 0
+	verifUseIdx = false
+	let res = Parser("xx")
+	let la = translate(tok)
+	let laSpec = -1
+	i = 0
+	while (i < verifNTerm) {
+		if (ids[i] == la) { laSpec = i }
+		i = i + 1
+	}
+	let rs :number[] = []
+	let rx :number[] = []
+	let rv :number[] = []
+	i = 0
+	while (i < n) {
+		rs.push(sq[i])
+		rx.push(sx[i])
+		if (i == 0) {
+			rv.push(0)
+		} else {
+			if (verifSymTag[sx[i]] == 2) { rv.push(sw[i]) } else { rv.push(sv[i]) }
+		}
+		i = i + 1
+	}
+	rs[0] = 0
+	let li = 0
+	while (true) {
+		let top = rs.length - 1
+		let act = verifAct(rs[top], la)
+		if (act == ERROR_ACTION) {
+			if (res !== null) { return 1 }
+			if (verifRequests != 1) { return 2 }
+			if (li != verifLog.length) { return 3 }
+			return 0
+		}
+		if (act == ACCEPT_ACTION) {
+			if (res === null) { return 4 }
+			if (verifRequests != 1) { return 5 }
+			if (li != verifLog.length) { return 3 }
+			if (top >= 1 && rx[top] == verifStartSym && verifSymTag[rx[top]] != 0) {
+				if (verifField(res, verifSymTag[rx[top]]) != rv[top]) { return 6 }
+			}
+			return 0
+		}
+		if (act > 0) {
+			if (laSpec < 0) { return 7 }
+			if (verifRequests != 2) { return 8 }
+			if (li != verifLog.length) { return 3 }
+			rs.push(act)
+			rx.push(laSpec)
+			if (verifSymTag[laSpec] == 2) { rv.push(tv + 1000) } else { rv.push(tv) }
+			break
+		}
+		let k = 0 - act
+		if (li >= verifLog.length) { return 9 }
+		if (verifLog[li] != k) { return 10 }
+		if (k < 1 || k >= verifRuleLhs.length) { return 10 }
+		li = li + 1
+		let rhs = verifRuleRhs[k]
+		let m = rhs.length
+		if (m > top) { return 100 }
+		let val = verifK0[k]
+		i = 0
+		while (i < m) {
+			if (rx[top - m + 1 + i] != rhs[i]) { return 100 }
+			if (verifCoef[k][i] != 0) {
+				val = val + verifCoef[k][i] * rv[top - m + 1 + i]
+			}
+			i = i + 1
+		}
+		let lhs = verifRuleLhs[k]
+		let g = verifAct(rs[top - m], ids[lhs])
+		if (g <= 0 || g == ERROR_ACTION || g == ACCEPT_ACTION) { return 100 }
+		i = 0
+		while (i < m) {
+			rs.pop()
+			rx.pop()
+			rv.pop()
+			i = i + 1
+		}
+		rs.push(g)
+		rx.push(lhs)
+		rv.push(val)
+	}
+	// after the shift the driver met the stop code: its stack is the machine's stack
+	if (StackPointer != rs.length) { return 11 }
+	if (StackPointer > StateSymStack.length) { return 11 }
+	i = 1
+	while (i < rs.length) {
+		let e = StateSymStack[i]
+		if (e.Yystate != rs[i]) { return 12 }
+		if (e.YySymIndex != ids[rx[i]]) { return 13 }
+		if (verifSymTag[rx[i]] != 0) {
+			if (verifField(e.ValType, verifSymTag[rx[i]]) != rv[i]) { return 14 }
+		}
+		i = i + 1
+	}
+	return 0
+}
+`
 
 func (s *Spec) GoText() string {
 	return s.Render(RenderOpts{Prologue: GoPrologue, Epilogue: GoEpilogue, Union: GoUnion})
